@@ -82,6 +82,10 @@ def ensure_deps():
         return "builtin"
 
 
+def jsonable_shard(shard):
+    return {k: v for k, v in shard.items() if isinstance(v, (str, int, float, bool, type(None)))}
+
+
 def worker_main(pid: str, shard_file: str, out_file: str):
     src = src_root()
     sys.path.insert(0, src)
@@ -110,7 +114,21 @@ def worker_main(pid: str, shard_file: str, out_file: str):
     if shard.get("_replay") is not None:
         mod.replay(unjson(shard["_replay"]), rec)
     else:
-        mod.run(shard, rec, rng)
+        try:
+            mod.run(shard, rec, rng)
+        except Exception as e:  # noqa: BLE001
+            # safety net: an exception raised *inside werkzeug* that a workload did not expect ends that workload, but
+            # it is a finding about the code, not a reason to lose the shard (anything raised by the harness itself
+            # still kills the worker and makes the run inconclusive)
+            import traceback
+
+            frames = traceback.extract_tb(e.__traceback__)
+            if not frames or "/werkzeug/" not in frames[-1].filename:
+                raise
+            where = f"{frames[-1].filename.rsplit('/werkzeug/', 1)[1]}:{frames[-1].name}"
+            rec.violation(f"{pid}/unexpected-exception:{type(e).__name__}@{where}", "workload aborted by an exception out of werkzeug:\n" + "".join(traceback.format_exception(type(e), e, e.__traceback__))[-1800:],
+                          {"shard": jsonable_shard(shard)}, monitor="boundary")
+            rec.obs["workloads_aborted_by_an_exception"] = rec.obs.get("workloads_aborted_by_an_exception", 0) + 1
     rec.shard = shard
     rec.obs["_werkzeug_file"] = 0
     rec.notes.insert(0, f"werkzeug={wf}")
